@@ -56,7 +56,10 @@ def gen_case(src, depth=3):
         else:
             values.append({"v": r[0], "m": r[1], "at": r[2]})
     direct = src.bool(0.5)
-    return {"tree": tree, "direct": direct, "values": values, "xml": IG.model_xml(tree, [x["v"] for x in values], direct)}
+    cands = [i for i, x in enumerate(values) if IG.multi_keys(x["v"])]
+    multi = src.choice(cands) if cands and src.bool(0.85) else None
+    return {"tree": tree, "direct": direct, "values": values, "multi": multi,
+            "xml": IG.model_xml(tree, [x["v"] for x in values], direct, multi)}
 
 
 def gen_depth(d):
@@ -106,7 +109,8 @@ def judge_model(ctx, case, resp):
     if "results" not in r:
         ctx.note(key=shp, labels=["model-rejected"])
         return Fail("C11/model-rejected", "well-formed model rejected: %r\n%s" % ({k: r[k] for k in r if k != "invocables"}, case["xml"]))
-    names = IG.invocable_names(len(values))
+    multi = case.get("multi")
+    names = IG.invocable_names(len(values), IG.multi_keys(values[multi]["v"]) if multi is not None else None)
     if r.get("invocables") != names:
         ctx.note(key=shp, labels=["invocables-differ"])
         return Fail("C11/invocables-differ", "invocables %r, expected %r" % (r.get("invocables"), names))
@@ -164,8 +168,8 @@ def judge_model(ctx, case, resp):
             ctx.classes["out:literal-not-reproduced"] += 1     # the FEEL text of the value does not evaluate to it: not this property's subject
             continue
         want, rule, onotes = IR.coerced(tree, v)
-        for who in ("Id", "Out %d" % i, "Svc %d" % i):
-            kind = {"I": "bkm", "O": "decision", "S": "service"}[who[0]]
+        for who in ("Id", "Out %d" % i, "Svc %d" % i) + (("Multi",) if multi == i else ()):
+            kind = {"I": "bkm", "O": "decision", "S": "service", "M": "multi-output-service"}[who[0]]
             got = result(who, i)
             labels = ["out:" + kind, "out-rule:" + rule, "out:" + m] + ["out-note:" + n for n in sorted(onotes)]
             f = None
@@ -207,10 +211,10 @@ def setup(ctx):
 
 
 def run(ctx):
-    ctx.forall(ctx.parts_d[0], ctx.scale(2000, 20000), batch=50)
-    ctx.forall(ctx.parts_d[1], ctx.scale(4000, 30000), batch=50)
-    ctx.forall(ctx.parts_d[2], ctx.scale(6000, 40000), batch=50)
-    ctx.forall(ctx.parts_d[3], ctx.scale(8000, 60000), batch=50)
+    ctx.forall(ctx.parts_d[0], ctx.scale(2000, 120000), batch=50)
+    ctx.forall(ctx.parts_d[1], ctx.scale(4000, 180000), batch=50)
+    ctx.forall(ctx.parts_d[2], ctx.scale(6000, 240000), batch=50)
+    ctx.forall(ctx.parts_d[3], ctx.scale(8000, 360000), batch=50)
 
 
 if __name__ == "__main__":
